@@ -460,7 +460,9 @@ def prove_function(world, make_models, contract, timeout_ms=None, arg_terms_out=
                 if len(inner) != 1:
                     raise OutOfSubset('nested function %s not found exactly once in %s' % (c.nested, c.name))
                 fobj = getattr(c.fn, '__func__', c.fn)
-                clo = VClosure(inner[0], dict(args), fobj.__globals__, fobj.__qualname__ + '.' + c.nested)
+                env_ = dict(args)
+                clo = VClosure(inner[0], env_, fobj.__globals__, fobj.__qualname__ + '.' + c.nested)
+                env_[c.nested] = clo            # the inner function may refer to itself
                 val = I.call_closure(clo, [args[a.arg] for a in inner[0].args.args], {}, contract=c, frame_hook=hook)
             else:
                 val = I.run_function(c.fn, [], dict(args), contract=c, frame_hook=hook)
